@@ -13,7 +13,7 @@ func nopFinish() error { return nil }
 func withTextOutWriter(textOut string, f func(io.Writer) error) (err error) {
 	tow, finish, err := newTextOutWriter(textOut)
 	if err != nil {
-		return nil
+		return err
 	}
 	defer func() {
 		if err2 := finish(); err2 != nil && err == nil {
